@@ -17,7 +17,7 @@ ERRNO = {
     "EMFILE": _errno.EMFILE, "EIO": _errno.EIO, "EDQUOT": _errno.EDQUOT, "EPIPE": _errno.EPIPE,
     "EINTR": _errno.EINTR, "EEXIST": _errno.EEXIST, "ENOTDIR": _errno.ENOTDIR, "EROFS": _errno.EROFS,
     "EBADF": _errno.EBADF, "ESTALE": _errno.ESTALE, "EAGAIN": _errno.EAGAIN, "EBUSY": _errno.EBUSY,
-    "ETIMEDOUT": _errno.ETIMEDOUT, "EXDEV": _errno.EXDEV,
+    "ETIMEDOUT": _errno.ETIMEDOUT, "EXDEV": _errno.EXDEV, "WOULDBLOCK": _errno.EAGAIN,
 }
 
 CWD = "/sim"
@@ -123,6 +123,8 @@ class SimRaw(io.RawIOBase):
             kind = f["kind"]
             if kind == "EINTR":
                 pass  # retried inside the raw layer, like the real FileIO (PEP 475)
+            elif kind == "WOULDBLOCK":
+                return None  # what FileIO.write returns for EAGAIN on a non-blocking descriptor
             elif kind != "short":
                 raise _oserror(kind, self.path)
             elif n_req > 1:
@@ -263,6 +265,36 @@ class SimFS:
             p = posixpath.join(CWD, p)
         return posixpath.normpath(p)
 
+    def phys(self, p) -> str:
+        """Kernel-style resolution of every component but the last: a symbolic link to a directory is
+        followed BEFORE a following '..' is applied (os.path.abspath/normpath collapse 'link/..'
+        lexically; open() does not).  Without symbolic links this is norm()."""
+        if not self.links:
+            return self.norm(p)
+        p = os.fspath(p)
+        if isinstance(p, bytes):
+            p = p.decode("utf-8", "surrogateescape")
+        if not p.startswith("/"):
+            p = posixpath.join(CWD, p)
+        comps = [c for c in p.split("/") if c and c != "."]
+        cur, i, hops = "/", 0, 0
+        while i < len(comps):
+            c = comps[i]
+            i += 1
+            if c == "..":
+                cur = posixpath.dirname(cur)
+                continue
+            cand = posixpath.join(cur, c)
+            if i < len(comps) and cand in self.links:
+                hops += 1
+                if hops > 16:
+                    raise OSError(_errno.ELOOP, os.strerror(_errno.ELOOP), p)
+                comps = [x for x in self.links[cand].split("/") if x] + comps[i:]
+                cur, i = "/", 0
+                continue
+            cur = cand
+        return cur
+
     def role_of(self, path: str) -> str:
         return self.roles.get(path, "OTHER")
 
@@ -379,7 +411,7 @@ class SimFS:
             self.seq += 1
             self.record("open", "OTHER", "", mode, "!ENOENT")
             raise FileNotFoundError(_errno.ENOENT, os.strerror(_errno.ENOENT), os.fspath(file))
-        path = self.norm(file)
+        path = self.phys(file)
         role = self.role_of(path)
         path = self.resolve(path)
         modes = set(mode)
@@ -469,7 +501,7 @@ class SimFS:
 
         if os.fspath(path) in ("", b""):
             raise FileNotFoundError(_errno.ENOENT, os.strerror(_errno.ENOENT), os.fspath(path))
-        p = self.norm(path)
+        p = self.phys(path)
         role = self.role_of(p)
         if not flags & getattr(_os, "O_NOFOLLOW", 0):
             p = self.resolve(p)
@@ -578,18 +610,18 @@ class SimFS:
     def os_stat(self, path, *a, **kw):
         if kw.get("follow_symlinks", True) is False:
             return self.os_lstat(path)
-        return self._stat_result(self.resolve(self.norm(path)))
+        return self._stat_result(self.resolve(self.phys(path)))
 
     def os_lstat(self, path, *a, **kw):
         import stat as _stat
 
-        p = self.norm(path)
+        p = self.phys(path)
         if p in self.links:
             return _mkstat(_stat.S_IFLNK | 0o777, sum(p.encode()) & 0xFFFF, 1, len(self.links[p]), 1000)
         return self._stat_result(p)
 
     def os_link(self, src, dst, *a, **kw):
-        s_, d_ = self.norm(src), self.norm(dst)
+        s_, d_ = self.phys(src), self.phys(dst)
         f = self.fault("rename", self.role_of(d_), d_, 0)
         if f is not None:
             raise _oserror(f["kind"], d_)
@@ -606,7 +638,7 @@ class SimFS:
         self.record("link", self.role_of(d_), d_, s_, "ok")
 
     def os_symlink(self, src, dst, *a, **kw):
-        d_ = self.norm(dst)
+        d_ = self.phys(dst)
         if d_ in self.files or d_ in self.dirs or d_ in self.links:
             raise FileExistsError(_errno.EEXIST, os.strerror(_errno.EEXIST), os.fspath(dst))
         if posixpath.dirname(d_) not in self.dirs:
@@ -614,11 +646,11 @@ class SimFS:
         if posixpath.dirname(d_) in self.ro:
             raise PermissionError(_errno.EACCES, os.strerror(_errno.EACCES), os.fspath(dst))
         target = os.fspath(src)
-        self.links[d_] = self.norm(target if target.startswith("/") else posixpath.join(posixpath.dirname(d_), target))
+        self.links[d_] = self.phys(target if target.startswith("/") else posixpath.join(posixpath.dirname(d_), target))
         self.mutation("symlink", self.role_of(d_), d_)
 
     def os_rmdir(self, path, *a, **kw):
-        p = self.norm(path)
+        p = self.phys(path)
         if p not in self.dirs:
             raise FileNotFoundError(_errno.ENOENT, os.strerror(_errno.ENOENT), os.fspath(path))
         if any(posixpath.dirname(q) == p for q in list(self.files) + list(self.dirs) + list(self.links) if q != p):
@@ -629,7 +661,7 @@ class SimFS:
         self.mutation("rmdir", self.role_of(p), p)
 
     def os_truncate(self, path, length, *a, **kw):
-        p = self.resolve(self.norm(path))
+        p = self.resolve(self.phys(path))
         if p not in self.files:
             raise FileNotFoundError(_errno.ENOENT, os.strerror(_errno.ENOENT), os.fspath(path))
         if p in self.ro:
@@ -650,7 +682,7 @@ class SimFS:
 
     def os_scandir(self, path="."):
         fs = self
-        p = self.norm(path)
+        p = self.phys(path)
         if p not in self.dirs:
             raise FileNotFoundError(_errno.ENOENT, os.strerror(_errno.ENOENT), os.fspath(path))
         base = os.fspath(path)
@@ -708,7 +740,7 @@ class SimFS:
     def os_access(self, path, mode, *a, **kw):
         import os as _os
 
-        p = self.resolve(self.norm(path))
+        p = self.resolve(self.phys(path))
         if p not in self.files and p not in self.dirs:
             return False
         if mode & _os.R_OK and p in self.unreadable:
@@ -720,13 +752,13 @@ class SimFS:
         return True
 
     def os_readlink(self, path, *a, **kw):
-        p = self.norm(path)
+        p = self.phys(path)
         if p not in self.links:
             raise OSError(_errno.EINVAL, os.strerror(_errno.EINVAL), os.fspath(path))
         return self.links[p]
 
     def os_mkdir(self, path, mode=0o777, *a, **kw):
-        p = self.norm(path)
+        p = self.phys(path)
         if p in self.dirs or p in self.files:
             raise FileExistsError(_errno.EEXIST, os.strerror(_errno.EEXIST), os.fspath(path))
         if posixpath.dirname(p) not in self.dirs:
@@ -737,7 +769,7 @@ class SimFS:
         self.mutation("mkdir", self.role_of(p), p)
 
     def os_listdir(self, path="."):
-        p = self.norm(path)
+        p = self.resolve(self.phys(path))
         if p not in self.dirs:
             raise FileNotFoundError(_errno.ENOENT, os.strerror(_errno.ENOENT), os.fspath(path))
         out = set()
@@ -789,7 +821,7 @@ class SimFS:
 
     # -- os-level operations on sim paths (so refactors to atomic writes are modelled) ------
     def replace(self, src, dst, *a, **kw):
-        s, d = self.norm(src), self.norm(dst)
+        s, d = self.phys(src), self.phys(dst)
         f = self.fault("rename", self.role_of(d), d, 0)
         if f is not None:
             raise _oserror(f["kind"], d)
@@ -815,7 +847,7 @@ class SimFS:
         self.record("rename", self.role_of(d), d, s, "ok")
 
     def remove(self, path, *a, **kw):
-        p = self.norm(path)
+        p = self.phys(path)
         f = self.fault("unlink", self.role_of(p), p, 0)
         if f is not None:
             raise _oserror(f["kind"], p)
@@ -833,15 +865,15 @@ class SimFS:
         self.record("unlink", self.role_of(p), p, 0, "ok")
 
     def exists(self, path, *a, **kw):
-        p = self.resolve(self.norm(path))
+        p = self.resolve(self.phys(path))
         return p in self.files or p in self.dirs
 
     def isfile(self, path, *a, **kw):
-        p = self.resolve(self.norm(path))
+        p = self.resolve(self.phys(path))
         return p in self.files and p not in self.fifos
 
     def isdir(self, path, *a, **kw):
-        return self.norm(path) in self.dirs
+        return self.resolve(self.phys(path)) in self.dirs
 
     def snapshot(self, keep=()) -> dict:
         """Contents as hex; large files that are not of interest to the oracle (not in `keep`) are
@@ -993,19 +1025,22 @@ class Patches:
                 raise PermissionError(_errno.EACCES, "write to a real path blocked by the simulator", _os.fspath(file))
             return real_FileIO(file, mode, closefd, opener)
 
+        import select as _select
+
+        self._set(_select, "select", lambda r, w, x, timeout=None: (list(r), list(w), []))
         real_FileIO = io.FileIO
         self._set(io, "FileIO", sim_FileIO)
-        self._set(_os.path, "islink", wrap1(_os.path.islink, lambda p: fs.norm(p) in fs.links))
+        self._set(_os.path, "islink", wrap1(_os.path.islink, lambda p: fs.phys(p) in fs.links))
         self._set(_os, "fstat", wrapfd(_os.fstat, fs.os_fstat))
         self._set(_os, "mkdir", wrap1(_os.mkdir, fs.os_mkdir))
         self._set(_os, "listdir", lambda path=".": fs.os_listdir(path) if fs.is_sim(path) else _real_listdir(path))
         _real_listdir = self.saved[-1][2]
         self._set(_os, "chmod", wrap1(_os.chmod, lambda path, *a, **kw: None))
-        self._set(_os.path, "getsize", wrap1(_os.path.getsize, lambda p: len(fs.files[fs.norm(p)]) if fs.norm(p) in fs.files else fs.os_stat(p).st_size))
+        self._set(_os.path, "getsize", wrap1(_os.path.getsize, lambda p: len(fs.files[fs.phys(p)]) if fs.phys(p) in fs.files else fs.os_stat(p).st_size))
         self._set(_os.path, "getmtime", wrap1(_os.path.getmtime, lambda p: fs.os_stat(p).st_mtime))
         self._set(_os, "utime", wrap1(_os.utime, lambda p, *a, **k: None))
         self._set(_os.path, "abspath", wrap1(_os.path.abspath, lambda p: fs.norm(p)))
-        self._set(_os.path, "realpath", wrap1(_os.path.realpath, lambda p, **kw: fs.resolve(fs.norm(p))))
+        self._set(_os.path, "realpath", wrap1(_os.path.realpath, lambda p, **kw: fs.resolve(fs.phys(p))))
         try:
             import fcntl as _fcntl
 
